@@ -87,7 +87,14 @@ class CallMixin(object):
         snap = dict(self.frame.env.vars)
         envs = []
         seen = set()
+        sites = []
         for a, o in fn.alts:
+            recv = a.recv if isinstance(a, Bound) else a
+            st = o if o is not None else getattr(recv, 'site', None)
+            sites.append(st)
+        group = tuple(sorted(set(x for x in sites if x is not None))) \
+            if all(x is not None for x in sites) and len(set(sites)) == len(sites) else None
+        for (a, o), st in zip(fn.alts, sites):
             key = a
             try:
                 if key in seen:
@@ -99,7 +106,8 @@ class CallMixin(object):
             self.frame.env.vars = dict(snap)
             if self.cur is None:
                 break
-            self.emit('dispatch', node, {'target': a})
+            self.emit('dispatch', node, {'target': a, 'alt_site': st if group else None,
+                                         'group': group})
             r = self.call(a, list(args), dict(kwargs), node)
             if self.cur is not None:
                 results.append((r, self.cur))
